@@ -103,7 +103,11 @@ type node struct {
 	client           *nethttp.Client
 	responses        bytes.Buffer // every response: status line, headers, body
 	requests         int
+	timeouts         int // requests that got no answer within the client timeout
 }
+
+// wedged: the node stopped answering (seen once under heavy machine load: every handler waiting for the single SQLite connection)
+func (n *node) wedged() bool { return n.timeouts >= 2 }
 
 func freePort() string {
 	l, err := net.Listen("tcp", "127.0.0.1:0")
@@ -170,7 +174,7 @@ func startNodeOnce(t testing.TB) (*node, error) {
 			end = err
 		}
 	}()
-	n.client = &nethttp.Client{Timeout: 20 * time.Second, Transport: &nethttp.Transport{DisableKeepAlives: true}}
+	n.client = &nethttp.Client{Timeout: 30 * time.Second, Transport: &nethttp.Transport{DisableKeepAlives: true}}
 	deadline := time.Now().Add(40 * time.Second)
 	for {
 		select {
@@ -237,10 +241,16 @@ func (n *node) call(method, url string, body any, hdr ...string) (int, []byte) {
 	for i := 0; i+1 < len(hdr); i += 2 {
 		req.Header.Set(hdr[i], hdr[i+1])
 	}
+	if n.wedged() {
+		return -1, nil
+	}
 	n.requests++
 	resp, err := n.client.Do(req)
 	if err != nil {
 		fmt.Fprintf(&n.responses, "TRANSPORT-ERROR %v\n", err)
+		if ne, ok := err.(interface{ Timeout() bool }); ok && ne.Timeout() {
+			n.timeouts++
+		}
 		return -1, nil
 	}
 	defer resp.Body.Close()
